@@ -52,6 +52,9 @@ C["C18"] = dict(
 C["C09"] = dict(
   text="Lean 4 theorems over an effect model of create (the file system is an arbitrary function from paths to absent/file/directory; one guarded write after all checks, in Create::run's order) for every state, request and fault point: without --force an existing output leaves the whole file system unchanged and the command fails; --dry-run changes nothing; every failed run leaves no trace; success writes exactly the torrent bytes at the documented path (target, or <name>.torrent inside a directory target) and nothing else changes - in particular the input; standard output as target never changes the disk. The finite configuration space (--force x --dry-run x 7 output kinds x pre-existing state x input shape x --name x 9 failure causes incl. /proc/self/mem read errors and /dev/full) is enumerated completely on the real binary every run with whole-sandbox snapshots and input mtimes; verify/show/link frames.",
   note="Trusted: Lean kernel; kernel file semantics observed not modelled; faults after open not injectable (partial); exhaustive enumeration ties the model to the code.")
+C["C11"] = dict(
+  text="Lean 4 theorems over a byte-stream model of the peer client (repaired framing, handshake check, the ut_metadata state machine with the in-order piece test, the re-encoded header offset, the 16 KiB bound, the three-way size comparison, verify-then-accept) for EVERY incoming byte string, arbitrary typed readers and hash: a successful fetch returns a dictionary whose re-serialisation hashes to the magnet's infohash (authentic), from-link writes only then (write_only_authentic / no_write_on_failure), a wrong TCP handshake ends the fetch before any message, ordinary messages never change the client, keep-alives consume exactly four bytes and a serialised message is received back exactly whatever follows (framing round trip, segmentation independent by construction). Correspondence: simulated peers on loopback - honest family (sizes incl. exact multiples of 16 KiB, random segmentation, ids 1..255, interleaved keep-alives/ordinary messages) and bounded-exhaustive adversarial scripts (all sequences up to length 2 + sampled 3 over 20 faults, handshake variants), comparing result class, returned bytes and request sequence; end-to-end from-link with a simulated UDP tracker and lying/honest peers.",
+  note="Trusted: Lean kernel; typed readers parametric (validated); runtime behaviour partial; honest_complete not yet a theorem.")
 
 
 def main():
